@@ -84,14 +84,22 @@ pub struct ScriptRng {
     /// optional explicit script: each `fill_bytes` call takes the next entry if present
     pub script: Vec<Vec<u8>>,
     pub pos: usize,
+    /// number of draws the generator delivers before it FAILS (`try_fill_bytes` returns an error, `fill_bytes` panics,
+    /// as the rand_core contract prescribes for a failing source); `None` = never fails
+    pub budget: Option<usize>,
+}
+
+thread_local! {
+    /// budget picked up by the next `ScriptRng::scripted` (command `provefail`)
+    pub static RNG_BUDGET: std::cell::Cell<Option<usize>> = const { std::cell::Cell::new(None) };
 }
 
 impl ScriptRng {
     pub fn seeded(seed: u64) -> Self {
-        Self { sm: SplitMix(seed), calls: 0, bytes: 0, script: vec![], pos: 0 }
+        Self { sm: SplitMix(seed), calls: 0, bytes: 0, script: vec![], pos: 0, budget: None }
     }
     pub fn scripted(seed: u64, script: Vec<Vec<u8>>) -> Self {
-        Self { sm: SplitMix(seed), calls: 0, bytes: 0, script, pos: 0 }
+        Self { sm: SplitMix(seed), calls: 0, bytes: 0, script, pos: 0, budget: RNG_BUDGET.with(|b| b.get()) }
     }
 }
 
@@ -107,6 +115,11 @@ impl rand_core::RngCore for ScriptRng {
         u64::from_le_bytes(b)
     }
     fn fill_bytes(&mut self, dest: &mut [u8]) {
+        if let Some(b) = self.budget {
+            if self.calls >= b {
+                panic!("scripted RNG exhausted");
+            }
+        }
         self.calls += 1;
         self.bytes += dest.len();
         if self.pos < self.script.len() && self.script[self.pos].len() == dest.len() {
@@ -121,6 +134,11 @@ impl rand_core::RngCore for ScriptRng {
         }
     }
     fn try_fill_bytes(&mut self, dest: &mut [u8]) -> Result<(), rand_core::Error> {
+        if let Some(b) = self.budget {
+            if self.calls >= b {
+                return Err(rand_core::Error::from(core::num::NonZeroU32::new(rand_core::Error::CUSTOM_START + 7).unwrap()));
+            }
+        }
         self.fill_bytes(dest);
         Ok(())
     }
